@@ -751,10 +751,10 @@ func (vf *VerifyFunc) appendSlice(st *State, t types.Type, a, b *Val) *Val {
 		// small constant number of appended elements: precise stores
 		cur := ite(inplace, aArr, nbArr)
 		for j := int64(0); j < n.Int64(); j++ {
-			cur = store(cur, "(+ "+off+" (s_len "+a.Tm+") "+fmt.Sprint(j)+")", sel(bArr, "(+ (s_off "+b.Tm+") "+fmt.Sprint(j)+")"))
+			cur = store(cur, "(sidx "+off+" (+ (s_len "+a.Tm+") "+fmt.Sprint(j)+"))", sel(bArr, "(sidx (s_off "+b.Tm+") "+fmt.Sprint(j)+")"))
 		}
 		// fresh backing copies the prefix
-		st.assume("(forall ((i Int)) (! (=> (and (<= 0 i) (< i (s_len " + a.Tm + "))) (= (select " + nbArr + " i) (select " + aArr + " (+ (s_off " + a.Tm + ") i)))) :pattern ((select " + nbArr + " i))))")
+		st.assume("(forall ((i Int)) (! (=> (and (<= 0 i) (< i (s_len " + a.Tm + "))) (= (select " + nbArr + " (sidx 0 i)) (select " + aArr + " (sidx (s_off " + a.Tm + ") i)))) :pattern ((select " + nbArr + " (sidx 0 i)))))")
 		st.heapSet(key, as, store(h, base, cur))
 		return &Val{T: t, S: SSlice, Tm: res}
 	}
@@ -815,7 +815,7 @@ func (vf *VerifyFunc) special(st *State, fr *Frame, in ssa.Instruction, key stri
 			h := st.heapGet("E:Iface", heapSortFor("E:Iface", SIface))
 			for i, v := range verbs {
 				if v == 'w' {
-					elem := st.named(SIface, "wrapped", sel(sel(h, "(s_base "+args[1].Tm+")"), "(+ (s_off "+args[1].Tm+") "+fmt.Sprint(i)+")"))
+					elem := st.named(SIface, "wrapped", sel(sel(h, "(s_base "+args[1].Tm+")"), "(sidx (s_off "+args[1].Tm+") "+fmt.Sprint(i)+")"))
 					wrapped = append(wrapped, elem)
 				}
 			}
@@ -832,7 +832,7 @@ func (vf *VerifyFunc) special(st *State, fr *Frame, in ssa.Instruction, key stri
 			format := constString(c)
 			if _, has := vf.eng.cs.Ghosts["hexOf"]; has && format == "%x" {
 				h := st.heapGet("E:Iface", heapSortFor("E:Iface", SIface))
-				elem := sel(sel(h, "(s_base "+args[1].Tm+")"), "(s_off "+args[1].Tm+")")
+				elem := sel(sel(h, "(s_base "+args[1].Tm+")"), "(sidx (s_off "+args[1].Tm+") 0)")
 				// fmt %x of a byte slice: lower-case hex of its content (assumed; hexOf is injective on content)
 				isBytes := or(eq("(i_tag "+elem+")", fmt.Sprint(vf.eng.typeTag(types.NewSlice(types.Universe.Lookup("byte").Type())))), eq("(i_tag "+elem+")", fmt.Sprint(vf.eng.typeTag(types.NewSlice(types.Typ[types.Uint8])))))
 				r := st.freshVal(types.Typ[types.String], "sprintf")
